@@ -592,6 +592,13 @@ pub fn core_structures(cfg: &CfgSpec) -> Vec<Structure> {
         vec![ps(2, PDenom::Native, PRecv::Staker, AckFailure), ps(4, PDenom::Native, PRecv::Staker, TimedOut), ps(7, PDenom::Lst, PRecv::N1, Sent)],
         true,
     );
+    // S7: refundable transfers of both denoms toward the same receiver (the staker's own native address)
+    add(
+        "mixedstaker",
+        vec![bs(St::Pending, &[1], 0, 1)],
+        vec![ps(1, PDenom::Native, PRecv::Staker, AckFailure), ps(2, PDenom::Lst, PRecv::Staker, TimedOut), ps(3, PDenom::Lst, PRecv::N1, AckFailure)],
+        true,
+    );
     v
 }
 
